@@ -9,7 +9,7 @@ path = os.path.join(V, "results.json")
 res = json.load(open(path)) if os.path.exists(path) else {}
 for f in sorted(glob.glob("/tmp/mx/*/results.tsv")):
     fresh = set()
-    for line in open(f):
+    for line in open(f, errors="replace"):
         parts = line.rstrip("\n").split("\t")
         if len(parts) < 3 or parts[0] == "DONE":
             continue
